@@ -502,7 +502,11 @@ def wide_si(draw, n):
     if draw(st.integers(0, 9)) < 7:
         count = draw(st.integers(1, 12))
     else:
-        count = draw(st.integers(1, max(1, (mod - 1) // stride)))
+        # huge cardinalities on purpose (Hypothesis' integers() over a huge range mostly yields small numbers): the full circle,
+        # fractions of it, the neighbourhood of 2^53 (where a double stops counting), and a uniformly chosen bit length
+        maxc = max(1, (mod - 1) // stride)
+        base = draw(st.sampled_from((maxc, maxc // 2, maxc // 3, (1 << 53) // stride, (1 << 24) // stride, 1 << draw(st.integers(0, n)))))
+        count = max(1, min(maxc, base + draw(st.integers(-3, 3))))
     count = min(count, (mod - 1) // stride)
     if count == 0:
         return (0, lb, lb)
